@@ -174,7 +174,12 @@ func (r *rdbdriver) GetLocationByMap(ipnet *net.IPNet, mapID []byte, context Con
 	fullKey := make([]byte, 4+2+net.IPv6len+1) // 4 bytes for prefix, 2 bytes for mapID, and the rest is IP and masklen
 	copy(fullKey, ipMapRangePointKeyElement)   // prefix, 4 bytes
 	copy(fullKey[4:], mapID)                   // mapID, 2 bytes
-	copy(fullKey[6:], ipnet.IP.To16())
+	// only the bits covered by the client's prefix length take part in the match
+	clientIP := ipnet.IP.Mask(ipnet.Mask)
+	if clientIP == nil {
+		clientIP = ipnet.IP
+	}
+	copy(fullKey[6:], clientIP.To16())
 	reqMaskLen, _ := ipnet.Mask.Size()
 	if isIPv4(ipnet.IP) {
 		reqMaskLen += 128 - 32
